@@ -1,5 +1,5 @@
 import Driver.Common
-import Logrange.Proofs.LqlStmt
+import Logrange.Proofs.LqlLex
 /-! Model driver for C12 (LQL print / re-parse). Requests (byte strings hex, `-` = empty):
 
 * `facts` → `ok layout=<hex> format=<0|1>`: how `DateTime.String()` renders an instant in /repo now (regenerated)
@@ -89,21 +89,21 @@ def step (_ : Unit) (toks : List String) : Unit × String :=
        | some l => ((), s!"ok {canonLql l} | {hex (printLql (rdOf rows) l)} | {joinC (classes (rdOf rows) l)} | {td}"))
   | ["expr", t] =>
     (match lex (unhex t) with
-     | none => ((), "E=err D=err P=- C=- W=--")
+     | none => ((), "E=err D=err P=- C=- W=---")
      | some ts =>
        let e := (runEngine g "Expression" ts).bind (fun v => toExpr (8 * ts.length + 50) v)
        let d := directExpr ts
        let sh := fun (x : Option Expr) => match x with | some a => "ok " ++ canonExpr a | none => "err"
-       let w := match e with | some a => (if wfExpr a then "1" else "0") ++ (if lex (printExpr a) == some (toksExpr a) then "1" else "0") | none => "--"
+       let w := match e with | some a => (if wfExpr a then "1" else "0") ++ (if lex (printExpr a) == some (toksExpr a) then "1" else "0") ++ (if laExpr a then "1" else "0") | none => "---"
        ((), s!"E={sh e} D={sh d} P={match e with | some a => hex (printExpr a) | none => "-"} C=- W={w}"))
   | ["source", t] =>
     (match lex (unhex t) with
-     | none => ((), "E=err D=err P=- C=- W=--")
+     | none => ((), "E=err D=err P=- C=- W=---")
      | some ts =>
        let e := (runEngine g "Source" ts).bind (fun v => toSource (8 * ts.length + 50) v)
        let d := directSource ts
        let sh := fun (x : Option Source) => match x with | some a => "ok " ++ canonSource a | none => "err"
-       let w := match e with | some a => (if wfSource a then "1" else "0") ++ (if lex (printSource a) == some (toksSource a) then "1" else "0") | none => "--"
+       let w := match e with | some a => (if wfSource a then "1" else "0") ++ (if lex (printSource a) == some (toksSource a) then "1" else "0") ++ (match a with | .expr x => (if laExpr x then "1" else "0") | .tags _ => "-") | none => "---"
        ((), s!"E={sh e} D={sh d} P={match e with | some a => hex (printSource a) | none => "-"} C={match e with | some a => joinC (sourceClasses a) | none => "-"} W={w}"))
   | ["facts"] =>
     ((), s!"ok layout={hex Logrange.Generated.C12.dateLayout} format={if Logrange.Generated.C12.dateUsesFormat then 1 else 0}")
